@@ -23,7 +23,13 @@ EXPLANATION = (
   "name registries of codebuilder agree with the APIs they describe (lookup methods of UserTable, "
   "PREVIOUS/NEXT/RANK, record-returning find.* methods, inference tips in use); (R3) that each "
   "patch spans [pos, pos+len(old name)) of the formula of the column the name was found in, with "
-  "producer and consumer agreeing on the tuple layout. Not decided: astroid's inference coverage "
+  "producer and consumer agreeing on the tuple layout; (R4) that positions survive the code "
+  "generator: the stored formula text enters the textbuilder chain as received, and every "
+  "unindent patch make_formula_body adds for a multi-line string covers exactly the indent "
+  "inserted after one newline (start = string start + newline position + 1, end = start + "
+  "len(indent), replacement ''), with positions taken from the text that is patched. Locals are "
+  "compared by the value they stand for, guards are read from the CFG, rename maps may be built "
+  "by a comprehension or an accumulating loop. Not decided: astroid's inference coverage "
   "of formula shapes; equivalence of the `if renames:` guard and the per-record emission guard; "
   "the offset arithmetic inside textbuilder (C37).")
 
@@ -38,6 +44,10 @@ NON_EMITTING_MODULES = {
   "migrations": "offline TableDataSet migrations; they do not run inside the engine",
 }
 FORMULA_TABLE = "_grist_Tables_column"
+# helpers the rules anchor on by name (never inlined into their callers)
+KEEP = ("_prepare_formula_renames", "_do_doc_action", "_do_extra_doc_action", "_bulk_action_iter",
+        "_indent", "_do_make_formula_body", "_multiline_string_nodes", "_adjust_one_column_update",
+        "_pick_col_name", "_dedent", "_normalize_newlines")
 
 
 def check(run, repo, tier):
@@ -45,6 +55,7 @@ def check(run, repo, tier):
   r1_funnel(run, w)
   r2_registries(run, w)
   r3_positions(run, w)
+  r4_unindent(run, w)
 
 
 # ------------------------------------------------------------------------------------------ R1
@@ -58,8 +69,9 @@ def r1_funnel(run, w):
     q = fn.qualname
     if q in NON_EMITTING_FUNCS or fn.fi.module.name in NON_EMITTING_MODULES:
       continue
+    fv = H.View(fn)
     gw = [c for (n, c, nm) in fn.calls() if E.is_gateway_call(c, nm, fn) and c.args and
-          any(x is call for x in ast.walk(c.args[0]))]
+          any(x is call for x in ast.walk(fv.res(c.args[0])))]
     run.ob(R1, q, short(call), "a rename action constructed outside DocActions is handed straight "
            "to the gateway (no side channel)", bool(gw), fi=fn.fi, node=call)
     if gw:
@@ -73,10 +85,11 @@ def r1_funnel(run, w):
   # the user actions named after the renames only forward to the metadata path
   for name, field in (("RenameColumn", "colId"), ("RenameTable", "tableId")):
     fn = w.fn("useractions.UserActions." + name)
+    uv = H.View(fn)
     ps = fn.fi.params()
     direct = [c for (n, c, nm) in fn.calls() if E.is_gateway_call(c, nm, fn)]
     fwd = [c for (n, c, nm) in fn.calls() if endswith(nm, "self._docmodel.update") and
-           any(k.arg == field and text(k.value) == ps[-1] for k in c.keywords)]
+           any(k.arg == field and uv.t(k.value) == ps[-1] for k in c.keywords)]
     run.ob(R1, fn.qualname, "self._docmodel.update([rec], %s=%s)" % (field, ps[-1]),
            "the %s user action emits nothing itself and forwards the new name as an update of "
            "the metadata field %s (so it takes the funnel)" % (name, field),
@@ -112,26 +125,32 @@ def _r1_site(run, w, R1, fn, site, schema, overrides):
   prep_node, prep_call = site.preps[0]
 
   for emit in site.emits:
-    _map_agreement(run, R1, fn, site, emit, prep_call, schema, overrides)
+    _map_agreement(run, w, R1, fn, site, emit, prep_call, schema, overrides)
   _merge(run, w, R1, fn, site, prep_node, prep_call, overrides, schema)
 
 
-def _guard_field(tests, tm):
-  """('colId', normalised guard texts) from the emission guard has_diff_value(values, F, old)."""
-  field = None
-  for t in tests:
-    if isinstance(t, ast.Call) and dotted(t.func) == "has_diff_value" and len(t.args) == 3 and \
-        isinstance(t.args[1], ast.Constant):
-      field = t.args[1].value
-  return field, sorted(H.ntext(t, tm) for t in tests)
+def _guard_field(facts):
+  """'colId' from the emission guard has_diff_value(<values>, F, <old>) known to be true."""
+  for (a, pol) in facts:
+    if not pol:
+      continue
+    try:
+      e = ast.parse(a, mode="eval").body
+    except SyntaxError:
+      continue
+    if isinstance(e, ast.Call) and dotted(e.func) == "has_diff_value" and len(e.args) == 3 and \
+        isinstance(e.args[1], ast.Constant):
+      return e.args[1].value
+  return None
 
 
-def _map_agreement(run, R1, fn, site, emit, prep_call, schema, overrides):
+def _map_agreement(run, w, R1, fn, site, emit, prep_call, schema, overrides):
   q = fn.qualname
   cfg = fn.cfg
+  v = site.view
   nid, gw, ctor, aname = emit
-  loop, it_text, root, tm, tests, ctor = site.emission_shape(emit)
-  field, guard = _guard_field(tests, tm)
+  loop, it_text, root, tm, guard, ctor = site.emission_shape(emit)
+  field = _guard_field(guard)
   if field is None:
     raise AnalysisError("%s: emission of %s is not guarded by has_diff_value(values, <field>, "
                         "<old>)" % (q, aname))
@@ -143,31 +162,34 @@ def _map_agreement(run, R1, fn, site, emit, prep_call, schema, overrides):
          % (key[1] if key else None, field),
          "every update of the metadata field that names the entity passes through the function "
          "that renames it", owner_ok, fi=fn.fi)
-  # old/new expressions of the emitted action
-  args = [H.ntext(a, tm) for a in ctor.args]
-  if aname == "RenameTable" and len(args) == 2:
-    want_key, want_val = args[0], args[1]
-  elif aname == "RenameColumn" and len(args) == 3:
-    want_key, want_val = "(%s, %s)" % (args[0], args[1]), args[2]
-  else:
+  # old/new expressions of the emitted action, by field name
+  fields = w.action_types().get(aname)
+  b = H.bind_args(ctor, fields) if fields else None
+  if b is None or set(b) != set(fields):
     raise AnalysisError("%s: %s constructed with an unexpected arity" % (q, aname))
-  kind, name, comp, rekey = site.resolve_map(prep_call.args[0])
+  args = [v.t(b[f], tm) for f in fields]
+  if aname == "RenameTable":
+    want_key, want_val = args[0], args[1]
+  else:
+    want_key, want_val = "(%s, %s)" % (args[0], args[1]), args[2]
+  name, coll, rekey = site.resolve_map(site.prep_arg(prep_call))
   if (aname == "RenameTable") != (rekey == "table"):
     run.ob(R1, q, "rename map keys for %s" % aname, "table renames are keyed (table_id, None), "
            "column renames (table_id, col_id), as _prepare_formula_renames looks them up",
            False, fi=fn.fi, node=prep_call)
     return
-  writers = site.map_writer_nodes(name, comp)
+  writers = site.map_writer_nodes(name, coll)
   # no update pair that can carry a rename is added once the map has been (partly) written
   du = site.du
-  pair_writers = du.defs.get(root, set()) | du.muts.get(root, set())
+  pair_writers = {n for n, names in v._gens().items() if root in names} | \
+      du.muts.get(root, set())
   after = cfg.reach_after(writers) & pair_writers
   harmful, unknown = [], []
   for n in sorted(after):
-    v = site.classify_pairs_write(n, root, field)
-    if v == H.HARMFUL:
+    verdict = site.classify_pairs_write(n, root, field)
+    if verdict == H.HARMFUL:
       harmful.append(n)
-    elif v == H.UNKNOWN:
+    elif verdict == H.UNKNOWN:
       unknown.append(n)
   wit = None
   if harmful:
@@ -185,35 +207,32 @@ def _map_agreement(run, R1, fn, site, emit, prep_call, schema, overrides):
   if unknown:
     raise AnalysisError("%s: cannot classify a write to %s after the rename map is built: %s"
                         % (q, root, short(cfg.nodes[unknown[0]].stmt)))
-  if kind != "comp":
-    raise AnalysisError("%s: rename map %s is filled incrementally; cannot relate it to the "
-                        "emission loop" % (q, name))
-  if len(comp.generators) != 1 or comp.generators[0].is_async:
-    raise AnalysisError("%s: rename map comprehension has nested generators" % q)
-  g = comp.generators[0]
-  c_it, c_root = site.canonical_iter(g.iter)
-  ctm = H.target_map(g.target)
-  c_guard = sorted(H.ntext(t, ctm) for t in g.ifs)
-  c_key, c_val = H.ntext(comp.key, ctm), H.ntext(comp.value, ctm)
+  c_it, c_root = site.canonical_iter(coll.iter, at=v.point_of(coll.node))
+  c_guard = sorted(coll.conds)
+  e_guard = sorted(guard)
   run.ob(R1, q, "rename map iterates %s" % c_it, "the map is built from the very collection of "
          "update pairs the emission loop iterates (%s)" % it_text, c_it == it_text, fi=fn.fi,
-         node=comp)
-  same_idiom = len(c_guard) == len(guard) and all(a.startswith("has_diff_value(") for a in c_guard)
-  if c_guard != guard and not same_idiom:
+         node=coll.node)
+  same_idiom = len(c_guard) == len(e_guard) and \
+      all(a.startswith("has_diff_value(") and pol for (a, pol) in c_guard + e_guard)
+  if c_guard != e_guard and not same_idiom:
     raise AnalysisError("%s: filter of the rename map (%s) and emission guard (%s) use different "
-                        "idioms; cannot compare" % (q, c_guard, guard))
+                        "idioms; cannot compare" % (q, c_guard, e_guard))
   run.ob(R1, q, "rename map filter == emission guard",
          "a pair is in the map exactly when it is emitted as %s: filter %s vs guard %s"
-         % (aname, c_guard, guard), c_guard == guard, fi=fn.fi, node=comp)
+         % (aname, [a for a, _ in c_guard], [a for a, _ in e_guard]), c_guard == e_guard,
+         fi=fn.fi, node=coll.node)
   run.ob(R1, q, "rename map key/value == %s old/new arguments" % aname,
          "the map sends the emitted old name to the emitted new name: %s -> %s vs %s -> %s"
-         % (c_key, c_val, want_key if rekey != "table" else args[0], want_val),
-         c_key == (args[0] if rekey == "table" else want_key) and c_val == want_val,
-         fi=fn.fi, node=comp)
+         % (coll.key, coll.value, want_key, want_val),
+         coll.key == want_key and coll.value == want_val, fi=fn.fi, node=coll.node)
   if name is not None:
-    run.ob(R1, q, "%s has a single writer" % name, "the map the formulas are renamed with is "
-           "not altered between its construction and its uses", len(du.writers(name)) == 1,
-           fi=fn.fi)
+    # the map is complete, and not altered, once it is used
+    uses = {site.preps[0][0]}
+    run.ob(R1, q, "%s is not written after it is built" % name, "the map the formulas are "
+           "renamed with is not altered between its construction and its uses",
+           not (cfg.reach_after(uses) & writers) and
+           all(cfg.dominated_by(u, writers) for u in uses), fi=fn.fi)
 
 
 def _merge(run, w, R1, fn, site, prep_node, prep_call, overrides, schema):
@@ -221,6 +240,7 @@ def _merge(run, w, R1, fn, site, prep_node, prep_call, overrides, schema):
   doBulkUpdateFromPairs('_grist_Tables_column', ...)."""
   q = fn.qualname
   cfg = fn.cfg
+  v = site.view
   st = cfg.nodes[prep_node].stmt
   if not (isinstance(st, ast.Assign) and len(st.targets) == 1 and
           isinstance(st.targets[0], ast.Name) and st.value is prep_call):
@@ -231,31 +251,32 @@ def _merge(run, w, R1, fn, site, prep_node, prep_call, overrides, schema):
     if n.kind != "for":
       continue
     it = n.stmt.iter
-    if isinstance(it, ast.Call) and dotted(it.func) == "sorted" and len(it.args) == 1:
+    if isinstance(it, ast.Call) and dotted(it.func) in ("sorted", "list") and len(it.args) == 1:
       it = it.args[0]
+    it = v.alias_root(it, at=n.id)
     if not (H._is_items_view(it) and it.func.value.id == res):
       continue
     tg = n.stmt.target
     if not (isinstance(tg, ast.Tuple) and len(tg.elts) == 2 and
             all(isinstance(e, ast.Name) for e in tg.elts)):
       continue
-    kvar, vvar = tg.elts[0].id, tg.elts[1].id
+    tm = v.loop_map(n.stmt)
     for b in n.stmt.body:
       for c in calls_in(b):
         f = c.func
         if isinstance(f, ast.Attribute) and f.attr == "setdefault" and \
             isinstance(f.value, ast.Name) and len(c.args) == 2 and H._empty_dict(c.args[1]) and \
-            text(c.args[0]) == kvar:
+            v.t(c.args[0], tm) == "_v0_0" and v.runs_for_all(n.stmt, c):
           # the chained write stores the new formula under the constant 'formula'
           for x in ast.walk(b):
             if isinstance(x, ast.Call) and isinstance(x.func, ast.Attribute) and \
                 x.func.value is c and x.func.attr == "setdefault" and len(x.args) == 2 and \
                 isinstance(x.args[0], ast.Constant) and x.args[0].value == "formula" and \
-                text(x.args[1]) == vvar:
+                v.t(x.args[1], tm) == "_v0_1":
               merged_into, loop_node = f.value.id, n.id
             if isinstance(b, ast.Assign) and isinstance(x, ast.Subscript) and x.value is c and \
                 isinstance(x.slice, ast.Constant) and x.slice.value == "formula" and \
-                text(b.value) == vvar:
+                v.t(b.value, tm) == "_v0_1":
               merged_into, loop_node = f.value.id, n.id
   run.ob(R1, q, "for col_rec, new_formula in %s.items(): <pairs>[col_rec]['formula'] = "
          "new_formula" % res, "the rewritten formula texts are merged into a set of column "
@@ -268,19 +289,21 @@ def _merge(run, w, R1, fn, site, prep_node, prep_call, overrides, schema):
   key = overrides.get(q)
   ps = fn.fi.params()
   for (n, c, nm) in fn.calls():
-    if endswith(nm, "self.doBulkUpdateFromPairs") and len(c.args) == 2:
-      t = c.args[0]
-      rebound = any(n.id in cfg.reach_after({d}) for d in site.du.defs.get(t.id, set())) \
-          if isinstance(t, ast.Name) else False
-      table_ok = (isinstance(t, ast.Constant) and t.value == FORMULA_TABLE) or \
-          (isinstance(t, ast.Name) and len(ps) > 1 and t.id == ps[1] and key is not None and
-           key[1] == FORMULA_TABLE and not rebound)
-      try:
-        _, root = site.canonical_iter(c.args[1])
-      except AnalysisError:
-        continue
-      if table_ok and root == merged_into:
-        bulk.add(n.id)
+    if not endswith(nm, "self.doBulkUpdateFromPairs"):
+      continue
+    b = H.bind_args(c, ("table_id", "record_values_pairs"))
+    if b is None or len(b) != 2:
+      continue
+    t = v.res(b["table_id"])
+    table_ok = (isinstance(t, ast.Constant) and t.value == FORMULA_TABLE) or \
+        (isinstance(t, ast.Name) and len(ps) > 1 and t.id == ps[1] and key is not None and
+         key[1] == FORMULA_TABLE and v.reaching(t.id, n.id) == frozenset([v.ENTRY]))
+    try:
+      _, root = site.canonical_iter(b["record_values_pairs"])
+    except AnalysisError:
+      continue
+    if table_ok and root == merged_into:
+      bulk.add(n.id)
   ok = bool(bulk) and has_formula and cfg.postdominated_by(loop_node, bulk) and \
       not (cfg.reach_after(bulk) & {loop_node})
   run.ob(R1, q, "self.doBulkUpdateFromPairs(%r, <pairs incl. formulas>)" % FORMULA_TABLE,
@@ -468,147 +491,349 @@ def _tip_is_concrete(w, ci):
 
 # ------------------------------------------------------------------------------------------ R3
 
+def _is_call_to(e, *names):
+  return isinstance(e, ast.Call) and endswith(dotted(e.func), *names)
+
+
 def r3_positions(run, w):
   R3 = run.rule("C16-R3", "each rename patch spans [pos, pos+len(old name)) of the formula the "
                 "name was found in; producer and consumer agree on the tuple layout", floor=8)
-  fn = w.fn("useractions.UserActions._prepare_formula_renames")
+  fn = H.xfn(w, "useractions.UserActions._prepare_formula_renames", keep=KEEP)
+  v = H.View(fn)
   q = fn.qualname
   ps = fn.fi.params()
   ren = ps[1]
   loop = None
-  for s in fn.node.body:
-    if isinstance(s, ast.For) and isinstance(s.iter, ast.Call) and \
-        endswith(fn.name(s.iter), "gencode.grist_names"):
+  for s in walk_no_nested(fn.node):
+    if isinstance(s, ast.For) and isinstance(v.res(s.iter), ast.Call) and \
+        endswith(dotted(v.x(s.iter).func), "gencode.grist_names"):
       loop = s
   if loop is None or not (isinstance(loop.target, ast.Tuple) and len(loop.target.elts) == 4 and
                           all(isinstance(e, ast.Name) for e in loop.target.elts)):
     raise AnalysisError("%s: loop over gencode.grist_names() with a 4-tuple target not found" % q)
-  t_info, t_pos, t_tab, t_col = [e.id for e in loop.target.elts]
-  body_nodes = list(x for b in loop.body for x in walk_no_nested(b))
-  # lookup key
-  look = [c for c in body_nodes if isinstance(c, ast.Call) and
-          isinstance(c.func, ast.Attribute) and c.func.attr == "get" and
-          text(c.func.value) == ren and len(c.args) == 1]
-  ok = len(look) == 1 and text(look[0].args[0]) == "(%s, %s)" % (t_tab, t_col)
-  run.ob(R3, q, "%s.get((%s, %s))" % (ren, t_tab, t_col), "the rename is looked up under the "
-         "(table, column) the name was resolved to", ok, fi=fn.fi, node=loop)
-  newvar = None
-  for s in body_nodes:
-    if isinstance(s, ast.Assign) and look and s.value is look[0] and \
-        isinstance(s.targets[0], ast.Name):
-      newvar = s.targets[0].id
-  # old name = col_id or table_id
-  namevar = None
-  for s in body_nodes:
-    if isinstance(s, ast.Assign) and isinstance(s.targets[0], ast.Name) and \
-        isinstance(s.value, ast.BoolOp) and isinstance(s.value.op, ast.Or) and \
-        [text(v) for v in s.value.values] == [t_col, t_tab]:
-      namevar = s.targets[0].id
-  patches = [c for c in body_nodes if isinstance(c, ast.Call) and
-             endswith(dotted(c.func), "textbuilder.make_patch", "make_patch")]
-  if len(patches) != 1 or len(patches[0].args) != 4:
+  tm = v.loop_map(loop)
+  t_info, t_pos, t_tab, t_col = "_v0_0", "_v0_1", "_v0_2", "_v0_3"
+  in_loop = lambda node: any(y is node for b in loop.body for y in ast.walk(b))
+  patches = [c for c in calls_in(loop.body) if _is_call_to(c, "textbuilder.make_patch",
+                                                           "make_patch")]
+  if len(patches) != 1:
     raise AnalysisError("%s: one make_patch(text, start, end, new) call expected" % q)
-  a_text, a_start, a_end, a_new = patches[0].args
-  end_forms = set()
-  if namevar is not None:
-    end_forms = {"%s + len(%s)" % (t_pos, namevar), "len(%s) + %s" % (namevar, t_pos)}
-  end_forms |= {"%s + len(%s or %s)" % (t_pos, t_col, t_tab)}
+  pa = H.bind_args(patches[0], ("full_text", "start", "end", "new_text"))
+  if pa is None or len(pa) != 4:
+    raise AnalysisError("%s: make_patch(text, start, end, new) with four arguments expected" % q)
+  new_t = v.t(pa["new_text"], tm)
+  run.ob(R3, q, "%s.get((<table>, <column>))" % ren, "the rename is looked up under the "
+         "(table, column) the name was resolved to, and the replacement text is the new name "
+         "found for it", new_t in ("%s.get((%s, %s))" % (ren, t_tab, t_col),
+                                   "%s[%s, %s]" % (ren, t_tab, t_col),
+                                   "%s[(%s, %s)]" % (ren, t_tab, t_col)),
+         witness="replacement: %s" % new_t, fi=fn.fi, node=patches[0])
+  old = "%s or %s" % (t_col, t_tab)
+  end_forms = {"%s + len(%s)" % (t_pos, old), "len(%s) + %s" % (old, t_pos)}
   run.ob(R3, q, short(patches[0]), "the patch starts at the reported position and is as long as "
          "the old name (col_id, or table_id for a table name)",
-         text(a_start) == t_pos and text(a_end) in end_forms, fi=fn.fi, node=patches[0])
-  run.ob(R3, q, "patch replacement = looked-up new name", "the replacement text is the new name "
-         "found for that (table, column)", newvar is not None and text(a_new) == newvar,
-         fi=fn.fi, node=patches[0])
+         v.t(pa["start"], tm) == t_pos and v.t(pa["end"], tm) in end_forms, fi=fn.fi,
+         node=patches[0])
+  # only names that are being renamed produce a patch
+  facts = v.facts_at(patches[0], start=tm.head, mapping=tm)
+  run.ob(R3, q, "if <new name>: <patch>", "a name that is not being renamed produces no patch",
+         (new_t, True) in facts or ("%s is None" % new_t, False) in facts, fi=fn.fi,
+         node=patches[0])
   # the text patched is the formula of the column the name was found in
-  du = DefUse(fn)
-  def single_def(name):
-    vals = [s.value for s in body_nodes if isinstance(s, ast.Assign) and
-            len(s.targets) == 1 and isinstance(s.targets[0], ast.Name) and
-            s.targets[0].id == name]
-    return vals[0] if len(vals) == 1 else None
-  recvar, ok = None, False
-  tv = a_text
-  if isinstance(tv, ast.Name):
-    tv = single_def(tv.id)
-  if isinstance(tv, ast.Attribute) and tv.attr == "formula" and isinstance(tv.value, ast.Name):
-    recvar = tv.value.id
-    rd = single_def(recvar)
-    if isinstance(rd, ast.Call) and endswith(fn.name(rd), "get_column_rec") and \
-        len(rd.args) == 2:
-      unpack = [s for s in body_nodes if isinstance(s, ast.Assign) and
-                isinstance(s.targets[0], ast.Tuple) and text(s.value) == t_info]
-      ok = len(unpack) == 1 and \
-          [text(e) for e in unpack[0].targets[0].elts] == [text(a) for a in rd.args]
+  rec_t = None
+  tv = v.x(pa["full_text"])
+  ok = False
+  if isinstance(tv, ast.Attribute) and tv.attr == "formula":
+    rd = tv.value
+    if isinstance(rd, ast.Call) and endswith(dotted(rd.func), "get_column_rec"):
+      rec_t = text(rd)
+      ok = _args_are_unpacked(v, rd, patches[0], tm, t_info)
   run.ob(R3, q, "patched text = get_column_rec(*formula_info).formula",
          "positions are offsets into the formula of the column in which the name occurs", ok,
          fi=fn.fi, node=patches[0])
   # patches are grouped under that same record and applied to that record's formula
-  grp = [c for c in body_nodes if isinstance(c, ast.Call) and
-         isinstance(c.func, ast.Attribute) and c.func.attr == "append" and
-         isinstance(c.func.value, ast.Call) and isinstance(c.func.value.func, ast.Attribute) and
-         c.func.value.func.attr == "setdefault"]
+  grp = [c for c in calls_in(loop.body) if isinstance(c.func, ast.Attribute) and
+         c.func.attr == "append" and len(c.args) == 1 and
+         v.denotes(c.args[0], lambda e: e is patches[0])]
   mapvar = None
   ok = False
   if len(grp) == 1:
-    sd = grp[0].func.value
-    mapvar = text(sd.func.value)
-    pv = [s.targets[0].id for s in body_nodes if isinstance(s, ast.Assign) and
-          s.value is patches[0] and isinstance(s.targets[0], ast.Name)]
-    ok = recvar is not None and text(sd.args[0]) == recvar and \
-        (text(grp[0].args[0]) in pv or grp[0].args[0] is patches[0])
+    sd = v.res(grp[0].func.value)
+    if isinstance(sd, ast.Call) and isinstance(sd.func, ast.Attribute) and \
+        sd.func.attr == "setdefault" and len(sd.args) == 2 and isinstance(sd.func.value, ast.Name):
+      mapvar = sd.func.value.id
+      ok = rec_t is not None and text(v.x(sd.args[0], at=v.point_of(grp[0]))) == rec_t and \
+          isinstance(sd.args[1], ast.List) and not sd.args[1].elts
   run.ob(R3, q, "<patches>.setdefault(col_rec, []).append(patch)", "patches are collected under "
          "the record whose formula they index", ok, fi=fn.fi)
   ok = False
   retvar = None
-  for s in fn.node.body:
-    if isinstance(s, ast.For) and mapvar is not None and H._is_items_view(s.iter) and \
-        s.iter.func.value.id == mapvar and isinstance(s.target, ast.Tuple) and \
-        len(s.target.elts) == 2:
-      kv, pv = [text(e) for e in s.target.elts]
-      reps = [c for b in s.body for c in calls_in(b) if
-              endswith(dotted(c.func), "textbuilder.Replacer", "Replacer") and len(c.args) == 2]
-      if len(reps) == 1:
-        base = reps[0].args[0]
-        inner = base.args[0] if isinstance(base, ast.Call) and \
-            endswith(dotted(base.func), "textbuilder.Text", "Text") and len(base.args) == 1 \
-            else None
-        if isinstance(inner, ast.Name):
-          src = [b.value for b in s.body if isinstance(b, ast.Assign) and
-                 text(b.targets[0]) == inner.id]
-          inner = src[0] if len(src) == 1 else None
-        src_ok = inner is not None and text(inner) == kv + ".formula"
-        stores = [b for b in s.body if isinstance(b, ast.Assign) and
-                  isinstance(b.targets[0], ast.Subscript) and
-                  text(b.targets[0].slice) == kv]
-        if src_ok and text(reps[0].args[1]) == pv and len(stores) == 1:
-          retvar = text(stores[0].targets[0].value)
+  for s in walk_no_nested(fn.node):
+    if not (isinstance(s, ast.For) and mapvar is not None and isinstance(s.target, ast.Tuple) and
+            len(s.target.elts) == 2):
+      continue
+    it = v.alias_root(s.iter)
+    if not (H._is_items_view(it) and it.func.value.id == mapvar):
+      continue
+    tm2 = v.loop_map(s)
+    for n in fn.cfg.nodes:
+      b = n.stmt
+      if n.kind == "stmt" and isinstance(b, ast.Assign) and len(b.targets) == 1 and \
+          isinstance(b.targets[0], ast.Subscript) and isinstance(b.targets[0].value, ast.Name) and \
+          any(y is b for z in s.body for y in ast.walk(z)) and \
+          v.t(b.targets[0].slice, tm2) == "_v0_0":
+        val = v.t(b.value, tm2)
+        if val == "textbuilder.Replacer(textbuilder.Text(_v0_0.formula), _v0_1).get_text()" and \
+            v.runs_for_all(s, b):
+          retvar = b.targets[0].value.id
           ok = True
   rets = [s for s in walk_no_nested(fn.node) if isinstance(s, ast.Return)]
-  ok = ok and len(rets) == 1 and text(rets[0].value) == retvar
+  ok = ok and len(rets) == 1 and v.t(rets[0].value) == retvar
   run.ob(R3, q, "result[col_rec] = Replacer(Text(col_rec.formula), patches).get_text()",
          "the patches of a record are applied to that record's own formula text and returned "
          "under it", ok, fi=fn.fi)
   # producer side: the tuple layout of parse_grist_names.make_tuple
   mk = w.fn("codebuilder.parse_grist_names.make_tuple")
+  mv = H.View(mk)
   mps = mk.fi.params()
-  tuples = [s.value for s in walk_no_nested(mk.node) if isinstance(s, ast.Return) and
-            isinstance(s.value, ast.Tuple)]
-  ok = len(mps) == 4 and len(tuples) == 1 and len(tuples[0].elts) == 4 and \
-      [text(e) for e in tuples[0].elts[2:]] == mps[2:] and \
-      isinstance(tuples[0].elts[1], ast.Attribute) and tuples[0].elts[1].attr == "start"
+  tuples = []
+  for s in walk_no_nested(mk.node):
+    if isinstance(s, ast.Return) and s.value is not None:
+      e, at = mv.resolve(s.value)
+      if isinstance(e, ast.Tuple):
+        tuples.append((e, at))
+  ok = len(mps) == 4 and len(tuples) == 1 and len(tuples[0][0].elts) == 4
+  if ok:
+    e, at = tuples[0]
+    ok = [mv.t(x, at=at) for x in e.elts[2:]] == mps[2:] and \
+        all(mv.reaching(p, at) == frozenset([mv.ENTRY]) for p in mps[2:]) and \
+        isinstance(e.elts[1], ast.Attribute) and e.elts[1].attr == "start" and \
+        _unpacked_from(mv, e.elts[1].value, at, "map_back_patch", 2) and \
+        _unpacked_from(mv, e.elts[0], at, "map_back_patch", 1)
   run.ob(R3, mk.qualname, "return (in_value, in_patch.start, table_id, col_id)",
          "the producer reports (formula owner, start offset in the original formula, table, "
          "column) in the order the consumer unpacks", ok, fi=mk.fi)
-  nm = [s for s in walk_no_nested(mk.node) if isinstance(s, ast.Assign) and
-        isinstance(s.value, ast.BoolOp) and isinstance(s.value.op, ast.Or)]
-  ok = len(nm) == 1 and [text(v) for v in nm[0].value.values] == [mps[3], mps[2]]
   asserts = [s for s in walk_no_nested(mk.node) if isinstance(s, ast.Assert)]
-  if ok:
-    nv = text(nm[0].targets[0])
-    ok = any(text(a.test) in ("%s - %s == len(%s)" % (mps[1], mps[0], nv),
-                              "len(%s) == %s - %s" % (nv, mps[1], mps[0])) for a in asserts)
+  want = mv.atom(ast.parse("%s - %s == len(%s or %s)" % (mps[1], mps[0], mps[3], mps[2]),
+                           mode="eval").body)
+  ok = any(mv.atom(a.test) == want for a in asserts)
   run.ob(R3, mk.qualname, "name = col_id or table_id; assert end - start == len(name)",
          "producer and consumer measure the same old name", ok, fi=mk.fi)
+
+
+def _args_are_unpacked(v, call, where, tm, src):
+  """call's two arguments are the two components of the tuple `src` (placeholder text): unpacked
+  into locals, indexed, or starred."""
+  at = v.point_of(where)
+  if len(call.args) == 1 and isinstance(call.args[0], ast.Starred) and not call.keywords:
+    return text(H._Renamer(H._versioned(tm)).visit(call.args[0].value)) == src
+  if len(call.args) != 2 or call.keywords:
+    return False
+  idx = [text(H._Renamer(H._versioned(tm)).visit(copy_(a))) for a in call.args]
+  if idx == ["%s[0]" % src, "%s[1]" % src]:
+    return True
+  if all(isinstance(a, ast.Name) for a in call.args):
+    d0 = v.reaching(call.args[0].id, at)
+    d1 = v.reaching(call.args[1].id, at)
+    if d0 == d1 and len(d0) == 1:
+      s = v.cfg.nodes[next(iter(d0))].stmt
+      return isinstance(s, ast.Assign) and len(s.targets) == 1 and \
+          isinstance(s.targets[0], (ast.Tuple, ast.List)) and \
+          [text(e) for e in s.targets[0].elts] == [a.id for a in call.args] and \
+          v.t(s.value, tm) == src
+  return False
+
+
+def copy_(e):
+  import copy
+  return copy.deepcopy(e)
+
+
+def _unpacked_from(v, name_expr, at, method, index):
+  """name_expr is a local bound (possibly through one more local) by unpacking component
+  `index` of the result of a `.method(...)` call."""
+  if not isinstance(name_expr, ast.Name):
+    return False
+  defs = v.reaching(name_expr.id, at)
+  if len(defs) != 1:
+    return False
+  s = v.cfg.nodes[next(iter(defs))].stmt
+  if not (isinstance(s, ast.Assign) and len(s.targets) == 1 and
+          isinstance(s.targets[0], (ast.Tuple, ast.List)) and len(s.targets[0].elts) > index and
+          isinstance(s.targets[0].elts[index], ast.Name) and
+          s.targets[0].elts[index].id == name_expr.id):
+    return False
+  src = v.res(s.value)
+  return isinstance(src, ast.Call) and isinstance(src.func, ast.Attribute) and \
+      src.func.attr == method
+
+
+# ------------------------------------------------------------------------------------------ R4
+
+def _flat_sum(e):
+  """operands of a chain of additions"""
+  if isinstance(e, ast.BinOp) and isinstance(e.op, ast.Add):
+    return _flat_sum(e.left) + _flat_sum(e.right)
+  return [e]
+
+
+def r4_unindent(run, w):
+  R4 = run.rule("C16-R4", "formula positions survive the code generator: the formula text enters "
+                "the builder chain as received, and each unindent patch of a multi-line string "
+                "removes exactly the indent inserted after one newline", floor=5)
+  tb = w.repo.module("textbuilder")
+  node = tb.assigns.get("Patch")
+  fields = None
+  if isinstance(node, ast.Call) and len(node.args) == 2 and isinstance(node.args[1], ast.Tuple):
+    fields = [e.value for e in node.args[1].elts if isinstance(e, ast.Constant)]
+  if fields != ["start", "end", "old_text", "new_text"]:
+    raise AnalysisError("textbuilder.Patch fields changed: %s" % (fields,))
+  fn = H.xfn(w, "codebuilder.make_formula_body", keep=KEEP)
+  v = H.View(fn)
+  q = fn.qualname
+  if "indent" not in fn.fi.params():
+    raise AnalysisError("%s: parameter `indent` not found" % q)
+  pats = [(n, c) for (n, c, nm) in fn.calls() if endswith(nm, "textbuilder.Patch", "Patch")]
+  un = []
+  for (n, c) in pats:
+    b = H.bind_args(c, fields)
+    if b is None or len(b) != 4:
+      raise AnalysisError("%s: Patch(start, end, old, new) with four arguments expected: %s"
+                          % (q, short(c)))
+    if v.enclosing_loops(n.stmt):
+      un.append((n, c, b))
+  if not un:
+    raise AnalysisError("%s: no patch is built per multi-line string" % q)
+  # the string nodes and their text
+  for (n, c, b) in un:
+    loops = v.enclosing_loops(n.stmt)
+    outer = loops[0]
+    ok_loop = isinstance(outer, ast.For) and isinstance(outer.target, ast.Name) and \
+        _is_call_to(v.x(outer.iter), "_multiline_string_nodes")
+    if not ok_loop:
+      raise AnalysisError("%s: unindent patches are not built in a loop over "
+                          "_multiline_string_nodes(...)" % q)
+    nodev = outer.target.id
+    atok = v.t(v.x(outer.iter).args[0]) if v.x(outer.iter).args else None
+    old_t, new_t = v.t(b["old_text"]), v.res(b["new_text"])
+    run.ob(R4, q, "Patch(.., .., %s, %s)" % (short(b["old_text"], 30), short(b["new_text"], 30)),
+           "an unindent patch replaces the inserted indent, and only it, by nothing (a patch "
+           "spanning the whole string would lose the positions of names inside it)",
+           old_t == "indent" and isinstance(new_t, ast.Constant) and new_t.value == "",
+           fi=fn.fi, node=c)
+    st, en = v.x(b["start"]), v.x(b["end"])
+    run.ob(R4, q, "end = start + len(indent)", "the patch is exactly as long as the indent",
+           text(en) in ("%s + len(indent)" % text(st), "len(indent) + %s" % text(st)),
+           witness="start %s, end %s" % (text(st), text(en)), fi=fn.fi, node=c)
+    # start = <start of the string node> + <position of a newline followed by indent> + 1
+    ops = _flat_sum(st)
+    ones = [o for o in ops if isinstance(o, ast.Constant) and o.value == 1]
+    names = [o for o in ops if isinstance(o, ast.Name)]
+    rest = [o for o in ops if o not in ones and o not in names]
+    at = v.point_of(c)
+    node_start = [o for o in names if _range_start_of(v, o, at, nodev)]
+    newline_pos = [o for o in names if _newline_positions(v, o, at, nodev)]
+    ok = len(ones) == 1 and not rest and len(names) == 2 and len(node_start) == 1 and \
+        len(newline_pos) == 1 and node_start[0] is not newline_pos[0]
+    run.ob(R4, q, "start = <string start> + <position of '\\n' + indent> + 1",
+           "the patch begins right after the newline, where the indent was inserted",
+           ok, witness="start = %s" % text(st), fi=fn.fi, node=c)
+  # positions refer to the text that is patched
+  reps = [c for (n, c, nm) in fn.calls() if endswith(nm, "textbuilder.Replacer", "Replacer")]
+  lists = set()
+  for (n, c, b) in un:
+    app = [x for x in calls_in(n.stmt) if isinstance(x.func, ast.Attribute) and
+           x.func.attr == "append" and isinstance(x.func.value, ast.Name)]
+    if len(app) == 1:
+      lists.add(app[0].func.value.id)
+  ok = False
+  for c in reps:
+    b = H.bind_args(c, ("in_builder", "patches"))
+    if b and isinstance(v.res(b.get("patches")), ast.Name) and v.res(b["patches"]).id in lists:
+      src = v.t(b["in_builder"])
+      parsed = [x for x in calls_in(fn.node.body)
+                if _is_call_to(x, "asttokens.ASTText", "ASTText") and x.args]
+      ok = len(parsed) == 1 and v.t(parsed[0].args[0]) == "%s.get_text()" % src
+  run.ob(R4, q, "Replacer(<builder>, <unindent patches>) with positions from "
+         "ASTText(<builder>.get_text())", "the positions of the patches are positions in the "
+         "text they are applied to", ok, fi=fn.fi)
+  # the formula enters the builder chain exactly as it is stored
+  fb = w.fn("codebuilder._do_make_formula_body")
+  bv = H.View(fb)
+  fps = fb.fi.params()
+  formula, assoc = fps[0], fps[2]
+  n_txt = 0
+  for (n, c, nm) in fb.calls():
+    if not endswith(nm, "textbuilder.Text"):
+      continue
+    b = H.bind_args(c, ("text", "value"))
+    if not b or "value" not in b or bv.t(b["value"]) != assoc:
+      continue
+    te = b["text"]
+    if not any(isinstance(y, ast.Name) and y.id == formula for y in ast.walk(bv.x(te))):
+      continue
+    n_txt += 1
+    ok = isinstance(te, ast.Name) and te.id == formula
+    wit = None
+    if ok:
+      for d in bv.reaching(formula, n.id):
+        if d == bv.ENTRY:
+          continue
+        val = bv._plain_value(formula, d)
+        if not (isinstance(val, ast.Call) and isinstance(val.func, ast.Attribute) and
+                val.func.attr == "decode" and text(val.func.value) == formula):
+          ok = False
+          wit = "the text was rewritten before: %s" % short(fb.cfg.nodes[d].stmt)
+    run.ob(R4, fb.qualname, "textbuilder.Text(%s, %s)" % (formula, assoc),
+           "the text that later patches are mapped back to is the formula as stored (any change "
+           "made before this point, e.g. newline normalisation on the plain string, shifts every "
+           "position reported for a rename)", ok, witness=wit, fi=fb.fi, node=c)
+  if n_txt != 1:
+    raise AnalysisError("%s: %d builders carry the formula with its associated value "
+                        "(one expected)" % (fb.qualname, n_txt))
+
+
+def _range_start_of(v, name, at, nodev):
+  """name is bound by unpacking component 0 of <atok>.get_text_range(<string node>) (or by
+  indexing it with [0])."""
+  defs = v.reaching(name.id, at)
+  if len(defs) != 1:
+    return False
+  s = v.cfg.nodes[next(iter(defs))].stmt
+  if not isinstance(s, ast.Assign) or len(s.targets) != 1:
+    return False
+  t = s.targets[0]
+  val = v.res(s.value)
+  if isinstance(t, (ast.Tuple, ast.List)) and t.elts and isinstance(t.elts[0], ast.Name) and \
+      t.elts[0].id == name.id:
+    return isinstance(val, ast.Call) and isinstance(val.func, ast.Attribute) and \
+        val.func.attr == "get_text_range" and len(val.args) == 1 and text(val.args[0]) == nodev
+  if isinstance(t, ast.Name) and isinstance(val, ast.Subscript) and \
+      isinstance(val.slice, ast.Constant) and val.slice.value == 0:
+    c = v.res(val.value)
+    return isinstance(c, ast.Call) and isinstance(c.func, ast.Attribute) and \
+        c.func.attr == "get_text_range" and len(c.args) == 1 and text(c.args[0]) == nodev
+  return False
+
+
+def _newline_positions(v, name, at, nodev):
+  """every binding of name that reaches `at` is <text of the string node>.find('\n' + indent..)"""
+  defs = v.reaching(name.id, at)
+  if not defs:
+    return False
+  for d in defs:
+    val = v._plain_value(name.id, d) if d != v.ENTRY else None
+    if not (isinstance(val, ast.Call) and isinstance(val.func, ast.Attribute) and
+            val.func.attr == "find" and val.args):
+      return False
+    recv = v.x(val.func.value, at=d)
+    if not (isinstance(recv, ast.Call) and isinstance(recv.func, ast.Attribute) and
+            recv.func.attr == "get_text" and len(recv.args) == 1 and
+            text(recv.args[0]) == nodev):
+      return False
+    if v.t(val.args[0], at=d) != "'\\n' + indent":
+      return False
+  return True
 
 
 # ---------------------------------------------------------------------------------- self-test
@@ -777,6 +1002,34 @@ VARIANTS = [
    "        name = table_id or col_id\n        formula = col_rec.formula", "C16-R3"),
   ("rename-looked-up-by-column-only", U, "new_name = renames.get((table_id, col_id))",
    "new_name = renames.get((None, col_id))", "C16-R3"),
+  ("unindent-patch-starts-at-newline", CB, "        patch_start = start + pos + 1\n",
+   "        patch_start = start + pos\n", "C16-R4"),
+  ("unindent-patch-one-too-long", CB,
+   "textbuilder.Patch(patch_start, patch_start + len(indent), indent, ''))",
+   "textbuilder.Patch(patch_start, patch_start + len(indent) + 1, indent, ''))", "C16-R4"),
+  ("unindent-patch-leaves-a-space", CB,
+   "textbuilder.Patch(patch_start, patch_start + len(indent), indent, ''))",
+   "textbuilder.Patch(patch_start, patch_start + len(indent), indent, ' '))", "C16-R4"),
+  ("whole-string-unindent-patch-restored", CB,
+   "      start, _ = atok.get_text_range(node)\n"
+   "      indented_text = atok.get_text(node)\n"
+   "      pos = indented_text.find('\\n' + indent)\n"
+   "      while pos >= 0:\n"
+   "        patch_start = start + pos + 1\n"
+   "        unindent_patches.append(\n"
+   "          textbuilder.Patch(patch_start, patch_start + len(indent), indent, ''))\n"
+   "        pos = indented_text.find('\\n' + indent, pos + 1)\n",
+   "      start, end = atok.get_text_range(node)\n"
+   "      indented_text = atok.get_text(node)\n"
+   "      unindented_text = indented_text.replace('\\n' + indent, '\\n')\n"
+   "      unindent_patches.append(textbuilder.Patch(start, end, indented_text, unindented_text))\n",
+   "C16-R4"),
+  ("unindent-positions-of-other-text", CB, "    atok = asttokens.ASTText(builder.get_text())\n",
+   "    atok = asttokens.ASTText(indented_formula_body.get_text())\n", "C16-R4"),
+  ("seeded-newlines-normalised-on-plain-string", CB,
+   "  formula_builder_text = textbuilder.Text(formula, assoc_value)\n",
+   "  formula = _newline_re.sub('\\n', formula)\n"
+   "  formula_builder_text = textbuilder.Text(formula, assoc_value)\n", "C16-R4"),
   ("producer-tuple-swapped", CB, "return (in_value, in_patch.start, table_id, col_id)",
    "return (in_value, in_patch.start, col_id, table_id)", "C16-R3"),
 ]
